@@ -161,6 +161,19 @@ pub fn reference_outline(coords: &[(i32, i32)], ends: &[usize], var: &RawGlyphVa
             sparse_active += 1;
             eps_fixed += span / 131072.0 + 1.0 / 32768.0;
             eps_f32 += 12.0 * ulp;
+            // The spec's rule "reference points with equal coordinate and
+            // different deltas infer 0" is evaluated by the scaler on the
+            // *scaled* deltas in its working precision: two different deltas
+            // become equal when |d1 - d2| * scalar is below the resolution
+            // (2^-16 in 16.16, one f32 ulp of the coordinate), which can
+            // happen only for tiny scalars; the inferred value is then off by
+            // at most dmax * scalar.
+            if s < 1.0 / 32768.0 {
+                eps_fixed += dmax * s;
+            }
+            if s < 2.0 * ulp {
+                eps_f32 += dmax * s;
+            }
         }
     }
     let ulp = (cmax + dsum + 1.0) / 8388608.0;
@@ -550,4 +563,34 @@ pub fn probe_region_b_applied(ctx: &mut Ctx, font: &[u8], coords: &[(i32, i32)])
         Ok(Err(_)) => ctx.count("draw_all_optional_probe_draw_error", 1),
         Err(p) => ctx.judge_panic(&p, "draw (all-optional probe)", json!({}), Some(font)),
     }
+}
+
+/// Replay of a recorded drawing violation: prints per-tuple diagnostics.
+pub fn replay_draw(ctx: &mut Ctx, rec: &serde_json::Value, data: &[u8]) {
+    let sig = rec["signature"].as_str().unwrap_or("");
+    let gid: u32 = sig.split(':').find_map(|p| p.strip_prefix('g').and_then(|g| g.parse().ok())).unwrap_or(0);
+    let loc: Vec<i16> = rec["detail"]["loc_f2dot14_bits"].as_array().map(|a| a.iter().map(|v| v.as_i64().unwrap_or(0) as i16).collect()).unwrap_or_default();
+    let Ok(font) = FontRef::new(data) else { return };
+    let (Ok(glyf), Ok(loca), Ok(gvar_t)) = (font.glyf(), font.loca(None), font.gvar()) else { return };
+    let Ok(raw) = RawGvar::parse(gvar_t.offset_data().as_bytes()) else { return };
+    let Ok(Some(Glyph::Simple(glyph))) = loca.get_glyf(GlyphId::new(gid), &glyf) else { return };
+    let np = glyph.num_points();
+    let mut raw_pts: Vec<Point<i32>> = vec![Point::default(); np];
+    let mut raw_flags: Vec<PointFlags> = vec![PointFlags::default(); np];
+    let _ = glyph.read_points_fast(&mut raw_pts, &mut raw_flags);
+    let mut coords: Vec<(i32, i32)> = raw_pts.iter().map(|p| (p.x, p.y)).collect();
+    coords.extend_from_slice(&[(0, 0); 4]);
+    let ends: Vec<usize> = glyph.end_pts_of_contours().iter().map(|e| e.get() as usize).collect();
+    let Ok(var) = raw.glyph(gid as usize, coords.len()) else { return };
+    eprintln!("replay: gid {} loc {:?} points {} contours {:?}", gid, loc, np, ends);
+    for (i, t) in var.tuples.iter().enumerate() {
+        let (s, partial, zero) = region_scalar(&t.tents, &loc);
+        let dmax = t.dx.iter().chain(t.dy.iter()).map(|v| v.abs()).max().unwrap_or(0);
+        eprintln!("  tuple {}: tents {:?} scalar {} (x65536 = {}) partial_axes {} zero {} sparse {} n_explicit {} dmax {}", i, t.tents, s, s * 65536.0, partial, zero, t.points.is_some(), t.dx.len(), dmax);
+    }
+    if let Ok(r) = reference_outline(&coords, &ends, &var, &loc) {
+        eprintln!("  eps_fixed {} eps_f32 {}", r.eps_fixed, r.eps_f32);
+    }
+    let mut rng = Rng::new(1);
+    let _ = check_draw_font(ctx, data, "replay", &[gid], 1, &mut rng, false, 0);
 }
